@@ -292,6 +292,12 @@ class SetT(T):
             s = VSet(pred=lambda x, p=p: f(*(list(p) + [x.term])))
             s.elem_kind = elem
             s.memfun = f
+            if not p:
+                # also available as a z3 set term (for cardinalities and set algebra)
+                zs = ctx.fresh(name + "_set", z3.SetSort(es))
+                x = z3.Const("x!set", es)
+                ctx.assume(z3.ForAll([x], z3.IsMember(x, zs) == f(x), patterns=[z3.IsMember(x, zs), f(x)]))
+                s.zset = zs
             return s
         return make
 
@@ -460,3 +466,30 @@ class ListT(TupleT):
 
 
 NAMESPACE.update(ListT=ListT)
+
+
+class NeighborhoodT(T):
+    """a callable  str -> iterable of str  (a neighbourhood generator such as hamming_neighbors): abstracted to the SET of strings
+    it yields for each argument (an uninterpreted function String -> Set(String)); multiplicities and order are not modelled"""
+
+    def family(self, name, ctx, psorts):
+        ssort = z3.SetSort(z3.StringSort())
+        f = ctx.fresh_fun(name, z3.StringSort(), ssort)
+
+        def call(interp, args, kwargs, node):
+            if len(args) != 1 or kwargs or not isinstance(args[0], VStr):
+                raise Unsupported("neighbourhood callable: argument form")
+            zs = f(args[0].term)
+            r = VSet(pred=lambda y: z3.IsMember(y.term, zs))
+            r.zset = zs
+            r.elem_kind = StrT()
+            return r
+        fv = VFunc("pyfn", name, data=call)
+        fv.relfun = f
+        return lambda p: fv
+
+    def decode(self, model, value):
+        return {"t": "callable", "name": value.name}
+
+
+NAMESPACE.update(NeighborhoodT=NeighborhoodT)
